@@ -37,7 +37,10 @@ def _join(rng, toks, lead=True):
     return s
 
 
-COMMENT_WORDS = ["qtot", "0.5", "see", "table", "C-H", "bond", "type", "[", "]", "#", "x;y", "note:", "ai", "aj"]
+COMMENT_WORDS = ["qtot", "0.5", "see", "table", "C-H", "bond", "type", "[", "]", "#", "x;y", "note:", "ai", "aj",
+                 # characters that are line ends for str.splitlines() but not for a text file (form feed, NEL from a bad
+                 # transcode, unicode line / paragraph separators, the ASCII separators)
+                 "page\x0cbreak", "see\u2028below", "caf\u0085", "a\x1cb", "x\x0by", "\u2029"]
 
 
 def _comment_text(rng, allow_hash_start=True):
